@@ -529,18 +529,32 @@ func c02Listener(r *core.Run, rule string, a *svcAnchors, root []*ssa.Function) 
 	for _, c := range callsTo(root, listener) {
 		n++
 		chanArg := c.Common().Args[len(c.Common().Args)-1]
-		// the channel passed is the value stored into S.inCh in the same function
+		// the channel passed is the value stored into S.inCh by this run's serve (the store and the
+		// listener call may each sit in a private helper of serve: values are followed through the
+		// helpers' parameters to serve's own value)
 		same := false
-		for _, b := range c.Parent().Blocks {
-			for _, in := range b.Instrs {
-				if st, ok := in.(*ssa.Store); ok {
-					if f, ok := core.FieldOf(st.Addr); ok && f == a.InCh && st.Val == chanArg {
-						same = true
+		inServe := c.Parent() == a.Serve || (c.Parent().Parent() == nil && p.Within(c.Parent(), a.Serve) && len(p.Lift(c, a.Serve)) > 0)
+		one := func(v ssa.Value) ssa.Value {
+			vs := paramArgs(p, v, 0)
+			if len(vs) != 1 {
+				return nil
+			}
+			return vs[0]
+		}
+		if cv := one(chanArg); cv != nil {
+			for _, f2 := range p.Helpers(a.Serve) {
+				for _, b := range f2.Blocks {
+					for _, in := range b.Instrs {
+						if st, ok := in.(*ssa.Store); ok {
+							if f, ok := core.FieldOf(st.Addr); ok && f == a.InCh && one(st.Val) == cv {
+								same = true
+							}
+						}
 					}
 				}
 			}
 		}
-		r.Check(c.Parent() == a.Serve && !core.IsGo(c) && same, rule, core.FuncName(c.Parent()), "listener-started-by-plain-call-on-in-channel", p.InstrPos(c),
+		r.Check(inServe && !core.IsGo(c) && same, rule, core.FuncName(c.Parent()), "listener-started-by-plain-call-on-in-channel", p.InstrPos(c),
 			"one listener, called synchronously by serve on the channel stored as the in-channel", "the listener is started with go / from another function / on a different channel than the in-channel")
 	}
 	r.Check(n == 1, rule, core.FuncName(listener), "single-listener", p.Pos(listener.Pos()), "exactly one call site starts the listener", fmt.Sprintf("%d call sites start a listener: two listeners would interleave submissions", n))
